@@ -47,7 +47,8 @@ def replay_instances(ctx):
         out += [
             inst("basic-nopush-t3", push=False, maxtbl=3),
             inst("basic-push-t3", push=True, maxtbl=3),
-            inst("basic-2streams-push", push=True, slots=2, reqs="MCReqs2", entries="MCEntriesFull"),
+            inst("basic-2streams-r3", slots=2),
+            inst("basic-2streams-push", push=True, slots=2, reqs="MCReqs2"),
             inst("blank-t3", host="blank", maxtbl=3),
         ]
     return out
@@ -56,7 +57,8 @@ def replay_instances(ctx):
 def exhaustive_instances(ctx):
     """Bigger instances checked exhaustively only."""
     if ctx.tier == "thorough":
-        return [inst("big-2streams-t3", slots=2, maxtbl=3), inst("big-2streams-t3-push", push=True, slots=2, maxtbl=3)]
+        return [inst("big-2streams-t3", slots=2, maxtbl=3), inst("big-2streams-t3-push", push=True, slots=2, maxtbl=3),
+                inst("big-2streams-t4", slots=2, maxtbl=4, reqs="MCReqs2"), inst("big-1stream-t4", maxtbl=4)]
     return [inst("big-2streams-q", slots=2, maxtbl=2)]
 
 
@@ -82,8 +84,13 @@ def _exhaustive(args):
 
 
 def _reach(args):
+    """Expected-to-be-violated probes: Reach* are state predicates (vacuity guards); NoStray is the action
+    property that the known finding payload-parsed-as-proposal violates at the design level."""
     ctx, (name, consts, _meta), probe = args
-    cfg = _cfg(consts, replace=[(INV, "INVARIANTS " + probe), (PROPS, ""), ("VIEW View", "")])   # op is part of the state here
+    if probe.startswith("Reach"):
+        cfg = _cfg(consts, replace=[(INV, "INVARIANTS " + probe), (PROPS, ""), ("VIEW View", "")])   # op is part of the state here
+    else:
+        cfg = _cfg(consts, replace=[(INV, "INVARIANTS TypeOK"), (PROPS, "PROPERTIES " + probe)])
     r = tlc.run(ctx, "C07_MC", "gen_%s_%s.cfg" % (name, probe), cfg_text=cfg, workers=1, timeout=600,
                 name="reach" + name + probe)
     if r.ok or r.violated != probe:
@@ -110,6 +117,8 @@ def _edge_stats(g):
             inc("use_first_" + op["res"] if op["first"] else "use_again")
             if op["first"] and op["res"] == "ok" and op["h"]["n"] != op["p"]:
                 inc("use_first_by_matcher")
+            if op["q"]:
+                inc("use_token_payload_stray" if op["stray"]["n"] else "use_token_payload_nostray")
         elif n == "close":
             inc("close_unused_handler" if op["unused"] and op["h"]["n"] else
                 "close_unused_nohandler" if op["unused"] else "close_est")
@@ -142,7 +151,8 @@ def _concurrent(ctx):
 
 REQUIRED_KINDS = {
     "basic": ("open_fail", "open_lazy", "open_est", "open_lazy_later_entry", "open_est_by_matcher", "open_est_not_first",
-              "use_first_ok", "use_first_fail", "use_first_by_matcher", "use_again", "close_est",
+              "use_first_ok", "use_first_fail", "use_first_by_matcher", "use_again", "use_token_payload_stray",
+              "use_token_payload_nostray", "close_est",
               "close_unused_handler", "close_unused_nohandler", "add", "remove", "forget", "learn"),
     "blank": ("open_fail", "open_est", "open_est_by_matcher", "open_est_not_first", "use_again", "close_est", "add", "remove"),
 }
@@ -162,7 +172,7 @@ def run(ctx):
         fc = pc.submit(_concurrent, ctx)
         fe = [pe.submit(_exhaustive, (ctx, i)) for i in einsts]
         fr = [pr.submit(_replay_instance, (ctx, i, beh_dir)) for i in rinsts]
-        fg = [pe.submit(_reach, (ctx, rinsts[0], probe)) for probe in ("ReachStaleFail", "ReachLaterWins", "ReachOverlap")]
+        fg = [pr.submit(_reach, (ctx, rinsts[0], probe)) for probe in ("ReachStaleFail", "ReachLaterWins", "ReachOverlap", "NoStray")]
         eres = [f.result() for f in fe]
         rres = [f.result() for f in fr]
         guards = [f.result() for f in fg]
